@@ -64,7 +64,8 @@ static Event* pending(FutureEvtSet* fes, Profile* p, unsigned idx, simgrid::kern
   ev->resource = r;
   ev->free_me  = false;
   p->fes_      = fes;
-  p->get_enough_events(idx);
+  for (unsigned k = 0; k <= idx; k++) // each earlier delivery made sure the following point is listed (Profile::next)
+    p->get_enough_events(k);
   fes->add_event(T, ev);
   return ev;
 }
